@@ -502,6 +502,7 @@ def run(pid, tier, seed, rep, info):
     hist = collections.Counter()
     drv = common.Driver()
     known = kf.Known(pid)
+    pending = []
     try:
         cases = list(known.witness_cases()) + list(cases_for(pid, tier, rng))
         progs = [(l, d.get("files")) for l, d in cases]
@@ -542,11 +543,14 @@ def run(pid, tier, seed, rep, info):
                                          "impl": str(i)[:3000], "model": str(m)[:3000], "statement": k,
                                          "in_listed_class": cls, "impl_equals_model": same, "all_failures": [t for _, t, _ in unlisted][:5]})
             elif not same:
+                # the correspondence is broken on this input but the property oracle passes on it: keep looking for an
+                # input on which the property itself fails; these are reported only when the search finds none
                 rep.cov["disagreements_checked"] += 1
-                rep.violation("correspondence broken (model and implementation differ; the property oracle passes on this input): %s" % "".join(lines)[:120],
-                              {"kind": "asm", "lines": lines, "desc": desc, "impl": str(i)[:3000], "model": str(m)[:3000],
-                               "relation": "MProgram.assemble = Program.process (outcome class, image, addresses, sizes, symbols, origin, name)"},
-                              found_input=False)
+                hist["correspondence_breaks"] += 1
+                if len(pending) < 3:
+                    pending.append(("correspondence broken (model and implementation differ; the property oracle passes on this input): %s" % "".join(lines)[:120],
+                                    {"kind": "asm", "lines": lines, "desc": {x: y for x, y in desc.items() if not callable(y)}, "impl": str(i)[:3000], "model": str(m)[:3000],
+                                     "relation": "MProgram.assemble = Program.process (outcome class, image, addresses, sizes, symbols, origin, name)"}))
             if len(rep.cov["samples"]) < 5 and i[0] == "OK" and desc.get("kind") != "witness":
                 rep.sample({"lines": lines, "impl": str(i)[:200]})
             if rep.full():
@@ -554,6 +558,9 @@ def run(pid, tier, seed, rep, info):
     finally:
         drv.close()
         asmlib.close_pool()
+    if pending and not rep.violations:
+        for text, data in pending[:2]:
+            rep.violation(text, data, found_input=False)
     rep.cov["input_distribution"] = dict(hist)
     rep.cov["programs"] = rep.cov["evaluations"]
     rep.cov["rule"] = RULES.get(pid, "")
